@@ -8,10 +8,11 @@ import (
 )
 
 type param struct {
-	name string
-	t    *typ
-	v    *val
-	recv bool
+	name  string
+	t     *typ
+	v     *val
+	recv  bool
+	alias bool // recvMode: bound to the receiver's object
 }
 
 // summary of a translated function, used at its call sites.
@@ -30,6 +31,8 @@ type summary struct {
 	text     string
 	coqType  string
 	failed   bool // translation failed: marker definition only
+	inplace  bool // writes the receiver's field integers in place: not callable from translated code
+	destRecv bool
 }
 
 // tr translates one function.
@@ -58,6 +61,10 @@ type tr struct {
 	secUsed      map[string]bool
 	nfresh       int
 	globals      map[string]*val
+	destRecv     bool   // the receiver is a documented destination: its fields may be written in place
+	recvMode     bool   // translate to the FINAL VALUE OF THE RECEIVER instead of the result
+	aliasArg     int    // recvMode: this parameter IS the receiver (p.Mul(s, p)); -1: none
+	inplace      bool   // some field integer of the receiver was written in place
 	temps        []*val // values held by an expression under evaluation
 }
 
